@@ -39,6 +39,14 @@ S = {
         "crashmon long-key workloads (--keypad), detection of multi-block record kill points, per-category chain budgets"),
     "c03-compaction-edit-advances-log-number": ("C03", "C03,C13",
         "memtable switch during the tail of a background compaction, process killed after the compaction's MANIFEST record and before the flush's", ""),
+    "c09-no-compaction-scheduled-after-all-reused-open": ("C09", "C09",
+        "reuse_logs=1 with MANIFEST and last WAL both reused (no descriptor written at open), >= 12 level-0 files already present, write-only workload: the first writer that fills the memtable waits on the level-0 limit with no background job scheduled", ""),
+    "c09-flush-request-absorbed-into-group-never-completed": ("C09", "C09",
+        "leader busy in its WAL write, a put queued behind it, a NULL-batch request (manual flush / ldb_compact) queued behind the put: popped with the group but never marked done or signalled", ""),
+    "c03-no-flush-when-fragment-ends-on-block-boundary": ("C03", "C03",
+        "a non-sync write whose WAL record ends exactly at a 32 KiB block end, process killed before anything else is appended to that log: the record is still in the user-space buffer", ""),
+    "c03-recovered-tables-of-nonlast-logs-skip-level0": ("C03", "C03,C05,C14",
+        "three logs at recovery (crash with imm pending, crash inside recovery), the two older ones with overlapping keys: their tables both land in level 2 with overlapping ranges", ""),
     "c04-group-commit-publishes-leader-count-only": ("C04", "C04,C08",
         "at least two writers merged into one group: followers are acknowledged but lie above the published sequence; the next write exposes a prefix of the follower batch", ""),
     "c04-zero-block-joins-fragmented-record": ("C04", "C15,C11,C04",
@@ -52,6 +60,10 @@ S = {
         "two live snapshots, a key overwritten between them, a compaction over both entries, read through the older snapshot", ""),
     "c06-find-file-by-user-key": ("C06", "C06,C14",
         "several snapshot-pinned versions of one user key split across two files of a level >= 1 (large values), get through a snapshot whose version is in the second file", ""),
+    "c06-boundary-files-only-for-automatic-compactions": ("C06", "C06,C01,C14",
+        "snapshot-pinned versions of one user key spanning adjacent files of a level >= 1 (large values), manual compaction of that level over a range ending before the shared key: newer versions move down, older stay above", ""),
+    "c06-sequence-range-published-before-batch-applied": ("C06", "C08,C04,C06",
+        "same mechanism as c08-sequence-published-before-apply, found independently: ldb_snapshot in another thread while the writer has dropped the mutex", ""),
     "c07-backward-scan-keeps-oldest-version": ("C07", "C07",
         "a key overwritten by a plain put with both versions physically present, reached by an iterator moving backwards", ""),
     "c07-seek-lt-no-fallback-to-last": ("C07", "C07",
@@ -90,6 +102,22 @@ S = {
         "crashmon post-crash monitor `existing-log-truncated-by-number-reuse` was added for it"),
     "c13-live-file-scan-skips-bottom-level": ("C13", "C13,C01",
         "data in the bottom level (6), reached by per-level manual compactions", ""),
+    "c02-torn-manifest-tail-reused-for-append": ("C02", "C02,C05",
+        "same mechanism as c05-manifest-end-computed-after-loop, found independently by a second agent: reuse_logs=1, power failure inside a MANIFEST append, restart, more edits appended behind the torn record, restart again", ""),
+    "c02-imm-log-collected-by-logfile-number": ("C02", "C02,C03,C13",
+        "memtable switch during the tail of a table compaction: its clean-up unlinks the log of the immutable memtable; power failure / kill before that memtable is flushed", ""),
+    "c05-replayed-wal-number-not-reserved": ("C05", "C05,C03,C13",
+        "reuse_logs=0, crash image whose newest WAL number is well above the MANIFEST's next-file counter (compaction with several outputs allocated + memtable switch): recovery gives the new log a LOWER number, the stale WAL survives and is replayed over newer data after the next reopen", ""),
+    "c05-max-sequence-from-last-wal-only": ("C05", "C05,C03",
+        "crash image with two WALs where the newer one holds no complete record: last_sequence stays at the MANIFEST's value, recovered entries invisible, new writes numbered below them", ""),
+    "c12-short-write-then-enospc-reported-ok": ("C12", "C12",
+        "a write() returning a short count followed by ENOSPC on the retry of the same buffer (disk filling up): the put is acknowledged with half a record in the WAL", ""),
+    "c12-table-read-error-becomes-notfound": ("C12", "C12",
+        "a point lookup of a key that lives in a table while a read-path call fails (EMFILE on open of an uncached table, EIO on a data-block read): NotFound instead of the error", ""),
+    "c13-gc-skipped-while-snapshot-outstanding": ("C13", "C13",
+        "a snapshot handle alive while flushes/compactions complete: obsolete tables and logs stay on disk", ""),
+    "c13-set-current-reports-dirsync-failure-after-rename": ("C13", "C13,C12",
+        "same mechanism as c12-set-current-dirsync-failure-deletes-manifest, found independently: the directory sync after the CURRENT rename fails, the error path unlinks the MANIFEST that CURRENT now names", ""),
     "c14-seek-compaction-moves-lone-l0-file": ("C14", "C14,C01",
         "two overlapping level-0 tables; the newer one exhausts its seek allowance (>=100 charged lookups) and is compacted alone", ""),
     "c14-boundary-file-byte-equality": ("C14", "C14,C01",
@@ -119,6 +147,10 @@ S = {
         "repairmon phase `many pinned tables` (14-22 flushes each spanning the whole key range, pinned by iterators) was added for it"),
     "c20-backup-does-not-wait-for-compaction-commit": ("C20", "C20",
         "ldb_backup started while a level compaction is inside its MANIFEST commit (mutex released) or while obsolete files are being unlinked", ""),
+    "c20-create-dir-idempotent-refused-backup-wipes-target": ("C20", "C20",
+        "ldb_backup into a directory that already exists and holds a database (an older backup, or the source itself): still refused, but the error-path cleanup unlinks the database files in the target", ""),
+    "c20-copy-hard-links-wal-and-manifest": ("C20", "C20",
+        "ldb_copy followed by reuse_logs=1 on whichever side is opened next: source and copy append to shared inodes", ""),
     "c20-destroy-removes-foreign-LOG-dot-files": ("C20", "C20",
         "a foreign file named LOG.<anything> in the database directory, then ldb_destroy / ldb_copy", ""),
 }
